@@ -3,6 +3,12 @@
 sweep  : configurations x fresh processes (hash seed, working directory / output location) x thread counts of the
          parallel kernels; the sha256 digest of meshes, every dataset, step/time/dt attributes and per-step records
          must coincide for one configuration across all of them (timestamps excluded by name).
+session: explicit-state exploration of *histories inside one process*: every sequence (depth-bounded) over an alphabet of 19
+         legitimate uses of the public API that leave the logical inputs unchanged (other solves on the same device / options /
+         parameter objects, moved or re-meshed copies, post-processing, saving and loading, pickling, queries, a refused and an
+         aborted solve, another thread count) is executed in a fresh process, then two reference simulations are run on the objects
+         that lived through the history; their digests (output files, post-processed fields, the inputs themselves) must equal
+         those of the empty history.
 kernel : E5 exploration of all interleavings (preemption-bounded) of every numba `prange` body on its Python source:
          every schedule gives the sequential result, loop iterations are pairwise conflict-free (which makes all
          interleavings equivalent), np.empty buffers are fully written, no scalar is carried across iterations;
@@ -39,8 +45,8 @@ ASSUMPTIONS = [
 
 def bound(tier):
     return {
-        "quick": "sweep: 6 configs x 3 fresh processes x thread counts {1,2,5,16}; kernel: 8 kernels, 2 virtual threads, preemption bound 1 (+ bound 2 on the screening kernel), compiled kernels at {1,2,3,5,16} threads",
-        "thorough": "sweep: 6 configs x 9 fresh processes x thread counts 1..16; kernel: 2 and 3 virtual threads, preemption bound 2, compiled kernels at 1..16 threads",
+        "quick": "session: 19 single operations + 36 core pairs, fresh process each; sweep: 6 configs x 3 fresh processes x thread counts {1,2,5,16}; kernel: 8 kernels, 2 virtual threads, preemption bound 1 (+ bound 2 on the screening kernel), compiled kernels at {1,2,3,5,16} threads",
+        "thorough": "session: 19 + 361 pairs + 216 core triples; sweep: 6 configs x 9 fresh processes x thread counts 1..16; kernel: 2 and 3 virtual threads, preemption bound 2, compiled kernels at 1..16 threads",
     }[tier]
 
 
@@ -53,7 +59,19 @@ KERNELS = ["A_induced", "sq2d", "sq3d", "eu2d", "eu3d", "bs1d", "bs2dz", "bs2dv"
 
 
 def cost(case):
-    return {"sweep": 20, "kernel": 3, "compiled": 1}[case["fam"]]
+    return {"sweep": 20, "kernel": 3, "compiled": 1, "session": 30}[case["fam"]]
+
+
+def session_histories(tier):
+    from ..c09_session import CORE, OPS
+
+    hs = [[a] for a in OPS]
+    if tier == "quick":
+        hs += [[a, b] for a in CORE for b in CORE]
+    else:
+        hs += [[a, b] for a in OPS for b in OPS]
+        hs += [[a, b, c] for a in CORE for b in CORE for c in CORE]
+    return hs
 
 
 def cases(tier, seed):
@@ -65,6 +83,10 @@ def cases(tier, seed):
             b = 2 if (tier == "thorough" or k == "A_induced") else 1
             out.append(dict(fam="kernel", kernel=k, nthreads=nt, bound=b))
         out.append(dict(fam="compiled", kernel=k, tier=tier, seed=seed))
+    hs = session_histories(tier)
+    per = 7 if tier == "quick" else 12
+    for i in range(0, len(hs), per):
+        out.append(dict(fam="session", histories=hs[i:i + per]))
     return out
 
 
@@ -246,5 +268,59 @@ def run_compiled(case):
     return res
 
 
+def run_session(case):
+    """One fresh process per history (plus one for the empty history); digests of the reference runs must coincide."""
+    res = CaseResult()
+    res.key = case_key(case)
+    base = os.getcwd()
+    hists = [[]] + [list(h) for h in case["histories"]]
+    env = dict(os.environ)
+    env.update(PYTHONHASHSEED="0", NUMBA_NUM_THREADS="16", VERIF_REPO=REPO, VERIF_HOME=str(VERIF), TQDM_DISABLE="1", MPLBACKEND="Agg")
+    env["PYTHONPATH"] = f"{REPO}:{VERIF}"
+    results = {}
+    pending = list(enumerate(hists))
+    running = []
+    conc = 2
+
+    def harvest(i, h, p):
+        out, err = p.communicate(timeout=1500)
+        line = [l for l in out.splitlines() if l.startswith("C09SESSION ")]
+        if p.returncode != 0 or not line:
+            raise RuntimeError(f"session child failed rc={p.returncode} history={h}: {err[-1500:]}")
+        results[i] = json.loads(line[-1][len("C09SESSION "):])
+
+    while pending or running:
+        while pending and len(running) < conc:
+            i, h = pending.pop(0)
+            wd = os.path.join(base, f"s{i}")
+            os.makedirs(wd)
+            p = subprocess.Popen([sys.executable, str(VERIF / "mc" / "c09_session.py"), json.dumps(h)], cwd=wd, env=env,
+                                 stdout=subprocess.PIPE, stderr=subprocess.PIPE, text=True)
+            running.append((i, h, p))
+        i, h, p = running.pop(0)
+        harvest(i, h, p)
+    ref = results[0]
+    if "error" in ref:
+        raise RuntimeError(f"the reference simulations fail in a pristine process: {ref['error']}")
+    for i, h in enumerate(hists):
+        if i == 0:
+            continue
+        r = results[i]
+        res.states.add("session/" + ">".join(h))
+        res.transitions += len(h) + 1
+        res.count("digests", len(r))
+        res.count("session_histories")
+        if "error" in r:
+            res.violate("operation-fails-after-history", failing=r["error"].split(":")[0], history=h, detail={"error": r["error"], "traceback": r.get("tb", "")})
+            continue
+        diff = sorted(k for k in ref if r.get(k) != ref[k])
+        if diff:
+            res.violate("result-depends-on-what-ran-before-in-the-process", history=h, differing=diff)
+    res.executions = len(hists)
+    res.nontrivial = True
+    res.outcome = "session"
+    return res
+
+
 def run_case(case):
-    return {"sweep": run_sweep, "kernel": run_kernel, "compiled": run_compiled}[case["fam"]](case)
+    return {"sweep": run_sweep, "kernel": run_kernel, "compiled": run_compiled, "session": run_session}[case["fam"]](case)
